@@ -117,6 +117,16 @@ impl core::fmt::Debug for WF { fn fmt(&self, f: &mut core::fmt::Formatter<'_>) -
     write!(f, "<{:>3}|{}>", self.0, "z") } }
 #[derive(Clone, Default, PartialEq)] pub struct Edge(pub &'static str);
 impl core::fmt::Debug for Edge { fn fmt(&self, f: &mut core::fmt::Formatter<'_>) -> core::fmt::Result { f.write_str(self.0) } }
+pub struct Heap;
+pub trait Storage<T> { type Of; }
+impl<T> Storage<T> for Heap { type Of = Vec<T>; }
+pub trait Family { type Of<B>; }
+impl Family for Heap { type Of<B> = Option<B>; }
+pub trait Plain { type Out; }
+impl<T> Plain for Vec<T> { type Out = (T, u8); }
+pub trait HasAssoc { type Assoc; }
+impl HasAssoc for i32 { type Assoc = u8; }
+impl HasAssoc for String { type Assoc = bool; }
 #[derive(Clone, Default, PartialEq)] pub struct Fail;
 impl core::fmt::Debug for Fail { fn fmt(&self, f: &mut core::fmt::Formatter<'_>) -> core::fmt::Result {
     f.write_str("F")?; Err(core::fmt::Error) } }
@@ -151,8 +161,25 @@ def id_coq(i):
     return "(mkid %s %s)" % ("true" if i["raw"] else "false", coq_str(i["n"]))
 
 
+# kind -> (rust text with {P} for the parameter / concrete type, underlying type as a function of the argument)
+QPATHS = {
+    "trait-arg": ("<crate::Heap as crate::Storage<{P}>>::Of", lambda a: ["vec", a]),        # parameter only in the trait's arguments
+    "gat-arg": ("<crate::Heap as crate::Family>::Of<{P}>", lambda a: ["opt", a]),           # only in the associated type's arguments
+    "self-ty": ("<Vec<{P}> as crate::Plain>::Out", lambda a: ["tup", [a, ["leaf", "u8"]]]), # only in the self type
+}
+ASSOC_OF = {"i32": "u8", "String": "bool"}       # impl HasAssoc for ...
+
+
+def qpath_underlying(t):
+    return QPATHS[t[1]][1](t[2])
+
+
 def ty_rs(case, t):
     k = t[0]
+    if k == "qpath":
+        return QPATHS[t[1]][0].replace("{P}", ty_rs(case, t[2]))
+    if k == "assoc":
+        return "%s::Assoc" % t[1]
     if k == "leaf":
         return LEAF_TYPES[t[1]][0]
     if k == "opt":
@@ -635,6 +662,10 @@ class Gen:
             return ["arr", [self.value(case, t[1], env) for _ in range(t[2])]]
         if k in ("box", "ref"):
             return [k, self.value(case, t[1], env)]
+        if k == "qpath":
+            return self.value(case, qpath_underlying(t), env)
+        if k == "assoc":
+            return self.value(case, ["leaf", ASSOC_OF[env[t[1]][1]]], None)
         if k == "lref":
             return ["ref", self.value(case, t[2], env)]
         if k == "carr":
@@ -659,6 +690,10 @@ class Gen:
             return [k, self.subst(t[1], env)]
         if k == "arr":
             return ["arr", self.subst(t[1], env), t[2]]
+        if k == "qpath":
+            return ["qpath", t[1], self.subst(t[2], env)]
+        if k == "assoc":
+            return ["leaf", ASSOC_OF[env[t[1]][1]]]
         if k == "lref":
             return ["lref", t[1], self.subst(t[2], env)]
         if k == "carr":
@@ -838,6 +873,10 @@ def ty_generic(t):
         return ty_generic(t[1])        # a const parameter ([u8; N]) is not a type parameter
     if k == "lref":
         return ty_generic(t[2])        # nor is a lifetime
+    if k == "qpath":
+        return ty_generic(t[2])        # wherever the parameter sits: trait arguments, GAT arguments, self type
+    if k == "assoc":
+        return True                    # T::Assoc
     if k == "tup":
         return any(ty_generic(x) for x in t[1])
     if k == "adt":
@@ -848,9 +887,14 @@ def ty_generic(t):
 TRAIT_COQ = {"Debug": "TrDebug", "Display": "TrDisplay", "LowerHex": "TrLowerHex"}
 
 
-def bounds_coq(name, fs):
-    """Gallina call of Model.generate_bounds for one struct / variant"""
-    flags = "; ".join("true" if ty_generic(f["ty"]) else "false" for f in fs["list"])
+def bounds_coq(name, fs, case=None, params=None):
+    """Gallina call of Model.generate_bounds for one struct / variant; [generic j] is Model.contains_generics on the
+    field's type (rendered as Model.sty) when the case is given"""
+    if case is not None:
+        ps = "[%s]" % "; ".join(coq_str(p_) for p_ in (params or []))
+        flags = "; ".join("contains_generics %s %s" % (ps, sty_coq(case, f["ty"])) for f in fs["list"])
+    else:
+        flags = "; ".join("true" if ty_generic(f["ty"]) else "false" for f in fs["list"])
     refs = []
     for f in fs["list"]:
         a = f["attr"]
@@ -862,8 +906,57 @@ def bounds_coq(name, fs):
         flags, "; ".join(refs), expansion_coq(name, fs))
 
 
-def item_where_coq(it):
+def item_where_coq(it, case=None):
     """Gallina: the where clause of the impl emitted for the item (user predicates, then the inferred bounds)"""
     units = [(it["name"], it["fields"])] if it["kind"] == "struct" else [(v["name"], v["fields"]) for v in it["variants"]]
     n_user = len((it.get("generics") or {}).get("where", []))
-    return "impl_where_clause %d%%nat (enum_bounds %s)" % (n_user, clist("(" + bounds_coq(n, fs) + ")" for (n, fs) in units))
+    return "impl_where_clause %d%%nat (enum_bounds %s)" % (n_user, clist("(" + bounds_coq(n, fs, case, it["params"]) + ")" for (n, fs) in units))
+
+
+# ------------------------------------------------------------------ types as Model.sty (for Model.contains_generics)
+
+def _path_sty(text, args=None):
+    segs = text.split("::")
+    out = ["(%s, nil)" % coq_str(x) for x in segs[:-1]]
+    out.append("(%s, %s)" % (coq_str(segs[-1]), clist(args or [])))
+    return "(SPath None %s)" % clist(out)
+
+
+def sty_coq(case, t):
+    k = t[0]
+    rec = lambda x: sty_coq(case, x)
+    if k == "leaf":
+        txt = LEAF_TYPES[t[1]][0]
+        if txt == "()":
+            return "(STuple nil)"
+        if txt.startswith("&'static "):
+            return "(SElem %s)" % _path_sty(txt[len("&'static "):])
+        return _path_sty(txt)
+    if k == "param":
+        return _path_sty(t[1])
+    if k == "opt":
+        return _path_sty("Option", [rec(t[1])])
+    if k == "vec":
+        return _path_sty("Vec", [rec(t[1])])
+    if k == "box":
+        return _path_sty("Box", [rec(t[1])])
+    if k in ("ref", "arr", "carr"):
+        return "(SElem %s)" % rec(t[1])
+    if k == "lref":
+        return "(SElem %s)" % rec(t[2])
+    if k == "tup":
+        return "(STuple %s)" % clist(rec(x) for x in t[1])
+    if k == "adt":
+        return _path_sty(case["items"][t[1]]["name"]["n"], [rec(x) for x in t[2]])
+    if k == "assoc":
+        return "(SPath None %s)" % clist(["(%s, nil)" % coq_str(t[1]), "(%s, nil)" % coq_str("Assoc")])
+    if k == "qpath":
+        a = rec(t[2])
+        heap = _path_sty("crate::Heap")
+        seg = lambda name, args: "(%s, %s)" % (coq_str(name), clist(args))
+        if t[1] == "trait-arg":
+            return "(SPath (Some %s) %s)" % (heap, clist([seg("crate", []), seg("Storage", [a]), seg("Of", [])]))
+        if t[1] == "gat-arg":
+            return "(SPath (Some %s) %s)" % (heap, clist([seg("crate", []), seg("Family", []), seg("Of", [a])]))
+        return "(SPath (Some %s) %s)" % (_path_sty("Vec", [a]), clist([seg("crate", []), seg("Plain", []), seg("Out", [])]))
+    raise ValueError(t)
